@@ -479,7 +479,7 @@ func c06Premises(c *Ctx, oc *obligCtx) map[string]string {
 // ("under m != nil", "under err == nil"). They are facts of the path and are re-established on
 // every run; when one fails the entry is void at that site.
 var c06ReviewedLocal = map[string]string{
-	"parser.lexComment#slice:l.input[l.start:(l.pos-1)]#0": "consumes-after-start",
+	"parser.lexComment#slice:l.input[l.start:(l.pos-1)]#0":                                  "consumes-after-start",
 	"interpreter.(*addeventandwait).Run$1#assert:proc.AddEventAndWait()#0.(*RootMonitor)#0": "operand-nonnil",
 	"interpreter.(*notinOpRuntime).Eval#assert:rt.inOpRuntime.Eval()#0.(bool)#0":            "error-nil",
 }
